@@ -102,7 +102,61 @@ func checkTotal(t byte, b []byte, kind string) {
 		res = "acc"
 	}
 	out.Class("total/" + tn + "/" + kind + "/" + res)
+	// the same input once more, into a message object that has been decoded into before (whatever the
+	// outcome was then): same verdict, same count, same fields, and again nothing outside the input
+	ro := c04Reused[t]
+	if ro == nil {
+		ro = libNew(t)
+		c04Reused[t] = ro
+	}
+	prevIn := c04ReusedPrev[t]
+	c04ReusedPrev[t] = hex(in)
+	in2 := make([]byte, len(b))
+	copy(in2, b)
+	var n2 int
+	var err2 error
+	var pan2 interface{}
+	func() {
+		defer func() {
+			if r := recover(); r != nil {
+				pan2 = r
+				site, class = panicSite(r)
+			}
+		}()
+		n2, err2 = ro.Decode(in2)
+	}()
+	out.Count("c04.reuse_decodes", 1)
+	detail2 := map[string]interface{}{"decoder": tn, "kind": kind, "input": hex(in), "len": len(in), "previous input of the same object": prevIn}
+	switch {
+	case pan2 != nil:
+		delete(c04Reused, t)
+		out.Violation("c04:reuse-panic:"+site+":"+class, fmt.Sprintf("%s.Decode into a message object that was decoded into before panics: %v", tn, pan2), detail2)
+	case n2 < 0 || n2 > len(in2):
+		out.Violation("c04:reuse-count:"+tn, fmt.Sprintf("Decode into a used message object returned n=%d for %d input bytes (err=%v)", n2, len(in2), err2), detail2)
+	case accepted && err2 != nil:
+		out.Violation("c04:reuse-reject:"+tn, "a packet a fresh message object accepts is rejected by one that was decoded into before: "+err2.Error(), detail2)
+	case accepted && n2 != n:
+		out.Violation("c04:reuse-count:"+tn, fmt.Sprintf("fresh object consumed %d bytes, used object %d", n, n2), detail2)
+	case accepted:
+		if d := diffPackets(libFields(m), libFields(ro)); d != "" {
+			out.Violation("c04:reuse-fields:"+tn, "decoded into a message object that was decoded into before: fields differ from those a fresh object reports: "+d, detail2)
+			break
+		}
+		for name, f := range fieldSlices(ro) {
+			if !inside(f, in2, n2) {
+				out.Violation("c04:reuse-field-outside:"+tn, fmt.Sprintf("field %s (%d bytes) reaches outside the %d bytes of the decoded packet", name, len(f), n2), detail2)
+				break
+			}
+		}
+		out.Count("c04.reuse_accepted", 1)
+	}
 }
+
+// c04Reused holds one long-lived message object per packet type: every input is decoded into it too.
+var (
+	c04Reused     = map[byte]message.Message{}
+	c04ReusedPrev = map[byte]string{}
+)
 
 // mutations calls emit for every mutated variant of a valid wire image.
 func mutations(r *spec.Rand, w []byte, emit func(kind string, b []byte)) {
